@@ -1,0 +1,18 @@
+//go:build verif
+
+package mastership
+
+import (
+	"github.com/onosproject/onos-config/pkg/store/topo"
+	"github.com/onosproject/onos-config/pkg/store/v2/configuration"
+)
+
+// NewReconcilerForVerif exposes the reconciler to the verification harness
+func NewReconcilerForVerif(topo topo.Store, configurations configuration.Store) *Reconciler {
+	return &Reconciler{topo: topo, configurations: configurations}
+}
+
+// NewConfigurationStoreWatcherForVerif exposes the watcher
+func NewConfigurationStoreWatcherForVerif(configurations configuration.Store) *ConfigurationStoreWatcher {
+	return &ConfigurationStoreWatcher{configurations: configurations}
+}
